@@ -90,13 +90,27 @@ func checkC03(c *Case) (*Violation, caseInfo) {
 	byP := map[*html.Node][]*SrcTok{}
 	var order []*html.Node
 	for _, st := range src.Toks {
-		if st.P == nil {
+		para := st.P
+		if para == nil && st.Text != nil {
+			// a paragraph without <p> tags: text and inline elements standing directly in a table cell,
+			// list item or quote (simpleParagraph decides below whether that is all the element holds)
+			for a := st.Text.Parent; a != nil; a = a.Parent {
+				if isElem(a, "td", "th", "li", "blockquote", "dd") {
+					para = a
+					break
+				}
+				if a.Type == html.ElementNode && !simpleInline[a.Data] {
+					break
+				}
+			}
+		}
+		if para == nil {
 			continue
 		}
-		if _, seen := byP[st.P]; !seen {
-			order = append(order, st.P)
+		if _, seen := byP[para]; !seen {
+			order = append(order, para)
 		}
-		byP[st.P] = append(byP[st.P], st)
+		byP[para] = append(byP[para], st)
 	}
 	var viol *Violation
 	keptSimple, droppedSimple, rich := 0, 0, 0
